@@ -5,6 +5,8 @@
 //! c02 --replay FILE.json                       re-run one recorded case on the implementation
 #[path = "../cond_gen.rs"]
 mod cond_gen;
+#[path = "../wasm_read.rs"]
+mod wasm_read;
 use cond_gen::*;
 use verif_harness::util::*;
 use std::path::Path;
@@ -166,6 +168,79 @@ fn gen_case(rng: &mut Rng, stream: Stream, depth: u32) -> Case {
     Case { rules, data, globals, compile_globals, per_rule: rng.chance(1, 2), stream }
 }
 
+
+// ------------------------------------------------------------ the emitted code
+/// Coq constructor (Cond/Wasm.v wfn) of a function of the emitted module
+fn wasm_fn_name(m: &wasm_read::Module, idx: usize) -> String {
+    if idx < m.imported_funcs.len() {
+        let full = &m.imported_funcs[idx];
+        let name = full.rsplit('.').next().unwrap_or("").split('@').next().unwrap_or("");
+        let read = |n: &str| -> Option<String> {
+            let (signed, r) = match n.strip_prefix("uint") { Some(r) => (false, r), None => (true, n.strip_prefix("int")?) };
+            let (be, bits) = match r.strip_suffix("be") { Some(b) => (true, b), None => (false, r) };
+            let bytes = match bits { "8" => 1, "16" => 2, "32" => 4, _ => return None };
+            Some(format!("(WfReadInt {}%nat {} {})", bytes, coq_bool(signed), coq_bool(be)))
+        };
+        match name {
+            "search_for_patterns" => "WfSearch".into(), "rule_match" => "WfRuleMatch".into(), "rule_no_match" => "WfRuleNoMatch".into(),
+            "lookup_integer" => "WfLookupInt".into(), "lookup_bool" => "WfLookupBool".into(), "lookup_string" => "WfLookupString".into(),
+            "is_pat_match_at" => "WfMatchAt".into(), "is_pat_match_in" => "WfMatchIn".into(), "pat_matches" => "WfMatches".into(),
+            "pat_matches_in" => "WfMatchesIn".into(), "pat_offset" => "WfOffset".into(), "pat_length" => "WfLength".into(),
+            "pat_range_match" => "WfRangeMatch".into(),
+            n => read(n).unwrap_or_else(|| format!("(WfOther {}%nat)", idx)),
+        }
+    } else {
+        // the module's own check_for_pattern_match(pattern_id): the only defined function with a
+        // parameter; it reads the bitmap whose base is the first imported global
+        let f = &m.funcs[idx - m.imported_funcs.len()];
+        let reads_bitmap = f.body.iter().any(|w| matches!(w, wasm_read::W::Op(0x23, v) if m.imported_globals.get(v[0] as usize).map(|g| g.ends_with("matching_patterns_bitmap_base")).unwrap_or(false)));
+        if f.n_params == 1 && reads_bitmap { "WfCheckMatch".into() } else { format!("(WfOther {}%nat)", idx) }
+    }
+}
+fn wasm_arity(bt: i64) -> usize { if bt == -1 { 0 } else if (0x7c..=0x7f).contains(&bt) { 1 } else { 9 } }
+fn wasm_coq(m: &wasm_read::Module, ws: &[wasm_read::W]) -> String {
+    use wasm_read::W;
+    coq_list(ws, |w| match w {
+        W::Block(bt, b) => format!("(WBlock {}%nat {})", wasm_arity(*bt), wasm_coq(m, b)),
+        W::Loop(bt, b) => format!("(WLoop {}%nat {})", wasm_arity(*bt), wasm_coq(m, b)),
+        W::If(bt, t, e) => format!("(WIf {}%nat {} {})", wasm_arity(*bt), wasm_coq(m, t), wasm_coq(m, e)),
+        W::Op(op @ 0x20..=0x22, v) => format!("(WLocal {} {}%nat)", op, v[0]),
+        W::Op(0x23, v) => match m.imported_globals.get(v[0] as usize).map(|s| s.as_str()) {
+            Some("yara_x.filesize") => "(WGlobalGet WgFilesize)".into(), Some("yara_x.pattern_search_done") => "(WGlobalGet WgSearchDone)".into(),
+            _ => format!("(WGlobalGet (WgOther {}%nat))", v[0]) },
+        W::Op(0x10, v) => format!("(WCall {})", wasm_fn_name(m, v[0] as usize)),
+        W::Op(op @ 0x28..=0x3e, v) => format!("(WOp {} [{}])", op, v[1]),
+        W::Op(op, v) => format!("(WOp {} {})", op, coq_list(v, |z| if *z < 0 { format!("({})", z) } else { format!("{}", z) })),
+    })
+}
+fn wasm_count(ws: &[wasm_read::W]) -> u64 {
+    use wasm_read::W;
+    ws.iter().map(|w| match w { W::Block(_, b) | W::Loop(_, b) => 1 + wasm_count(b), W::If(_, t, e) => 1 + wasm_count(t) + wasm_count(e), _ => 1 }).sum()
+}
+/// the `block` emit_rule_condition opened for every rule: rule id -> that block.  In the
+/// functions that hold the rules every rule is `block (result i32) .. end; i32.eqz; if .. else ..
+/// rule_match(<rule id>) .. end` at the top level.
+fn rule_blocks(m: &wasm_read::Module) -> Result<std::collections::BTreeMap<usize, wasm_read::W>, String> {
+    use wasm_read::W;
+    let rule_match = m.imported_funcs.iter().position(|f| f.contains(".rule_match@"));
+    let mut out = std::collections::BTreeMap::new();
+    let Some(rm) = rule_match else { return Ok(out) };
+    fn matched_rule(ws: &[W], rm: usize) -> Option<usize> {
+        for k in 1..ws.len() { if let (W::Op(0x41, c), W::Op(0x10, f)) = (&ws[k - 1], &ws[k]) { if f[0] as usize == rm { return Some(c[0] as usize); } } }
+        None
+    }
+    for f in &m.funcs {
+        for k in 2..f.body.len() {
+            if let (W::Block(0x7f, _), W::Op(0x45, _), W::If(_, t, e)) = (&f.body[k - 2], &f.body[k - 1], &f.body[k]) {
+                if let Some(r) = matched_rule(e, rm).or_else(|| matched_rule(t, rm)) {
+                    if out.insert(r, f.body[k - 2].clone()).is_some() { return Err(format!("two blocks for rule {}", r)); }
+                }
+            }
+        }
+    }
+    Ok(out)
+}
+
 fn corpus() -> Vec<Case> {
     let g0 = vec![GV::I(7), GV::I(-1), GV::B(true), GV::B(false), GV::S(b"Hello".to_vec()), GV::S(b"".to_vec())];
     let mk = |rules: Vec<RuleSpec>, data: &[u8], stream| Case { rules, data: data.to_vec(), globals: g0.clone(), compile_globals: g0.clone(), per_rule: true, stream };
@@ -238,11 +313,21 @@ pub fn run(args: &[String]) -> i32 {
         match compile_with_ir(&[("ns0".to_string(), src)], &g) { Ok((_, ir)) => println!("{}", ir), Err(e) => println!("ERR {}", e) }
         return 0;
     }
+    if let Some(p) = arg_val(args, "--wasm") {
+        let src = std::fs::read_to_string(&p).unwrap();
+        let g = gen_globals(&mut Rng::new(1));
+        let bytes = emitted_wasm(&[("ns0".to_string(), src)], &g).unwrap();
+        let m = wasm_read::read(&bytes).unwrap();
+        for (i, f) in m.imported_funcs.iter().enumerate() { println!("import {} {}", i, f); }
+        for (i, f) in m.imported_globals.iter().enumerate() { println!("global {} {}", i, f); }
+        for (i, f) in m.funcs.iter().enumerate() { let mut o = String::new(); wasm_read::show(&f.body, 1, &mut o); println!("func {} params={}\n{}", i + m.imported_funcs.len(), f.n_params, o); }
+        return 0;
+    }
     let seed = arg_u64(args, "--seed", 1);
     let n = arg_u64(args, "--n", 600) as usize;
     let depth = arg_u64(args, "--depth", 4) as u32;
     let out = arg_val(args, "--out").expect("--out");
-    let prelude = "From Coq Require Import List NArith ZArith Bool.\nFrom YV Require Import Cond.Syntax Cond.Sem Cond.RuleSet Cond.IrTree Cond.Check.\nImport ListNotations.\nOpen Scope Z_scope.\n";
+    let prelude = "From Coq Require Import List NArith ZArith Bool.\nFrom YV Require Import Cond.Syntax Cond.Sem Cond.RuleSet Cond.IrTree Cond.Wasm Cond.Check.\nImport ListNotations.\nOpen Scope Z_scope.\n";
     let mut shards = Shards::new(Path::new(&out), prelude, 100);
     let mut rng = Rng::new(seed);
     let mut stats = Stats::default();
@@ -265,7 +350,7 @@ pub fn run(args: &[String]) -> i32 {
         let consts = case.rules.iter().filter(|r| is_constant(&r.cond)).count() as u64;
         if case.stream == Stream::Main && consts > 0 && (n_const + consts) * 100 > 15 * (n_conds + case.rules.len() as u64 + 20) { stats.inc("regenerated_constant_condition"); continue; }
         let sources = sources_of(&case.rules, case.per_rule);
-        let (outcome, ir_text) = run_impl_ir(&sources, &case.compile_globals, &case.globals, &case.data);
+        let (outcome, cinfo) = run_impl_ir(&sources, &case.compile_globals, &case.globals, &case.data);
         let src = full_source(&case.rules);
         let (all, public) = match outcome {
             Outcome::Rejected(e) => { stats.inc("rejected_by_compiler"); if rejected.len() < 5 { rejected.push(format!("{}\n{}", e, src)); } continue; }
@@ -280,6 +365,8 @@ pub fn run(args: &[String]) -> i32 {
         };
         if warm_all != all { stats.inc("verdicts_change_when_search_is_forced"); }
         // the IR the compiler built for every rule (Compiler::set_ir_writer), in rule order
+        let ir_text = cinfo.ir.clone();
+        if cinfo.pattern_ids.len() != case.rules.len() || cinfo.pattern_ids.iter().zip(&case.rules).any(|(p, r)| p.len() != r.pats.len()) { eprintln!("c02: pattern ids do not fit the rules: {:?}\n{}", cinfo.pattern_ids, src); return 2; }
         let irs: Vec<IrNode> = match parse_ir(&ir_text) {
             Ok(v) => {
                 let mut by_rule: Vec<Option<IrNode>> = vec![None; case.rules.len()];
@@ -290,6 +377,14 @@ pub fn run(args: &[String]) -> i32 {
             Err(e) => { eprintln!("c02: cannot read the IR dump ({}):\n{}\n{}", e, src, ir_text); return 2; }
         };
         stats.add("ir_nodes_compared", irs.iter().map(|n| n.size() as u64).sum());
+        // the code the compiler emits for every rule (Compiler::emit_wasm_file), in rule order
+        let wasm: Vec<String> = {
+            let bytes = match emitted_wasm(&sources, &case.compile_globals) { Ok(b) => b, Err(e) => { eprintln!("c02: emit_wasm_file failed: {}\n{}", e, src); return 2; } };
+            let m = match wasm_read::read(&bytes) { Ok(m) => m, Err(e) => { eprintln!("c02: cannot read the emitted module: {}\n{}", e, src); return 2; } };
+            let blocks = match rule_blocks(&m) { Ok(b) => b, Err(e) => { eprintln!("c02: emitted module: {}\n{}", e, src); return 2; } };
+            if blocks.len() != case.rules.len() || !(0..case.rules.len()).all(|i| blocks.contains_key(&i)) { eprintln!("c02: emitted module: found the code of {} of {} rules\n{}", blocks.len(), case.rules.len(), src); return 2; }
+            (0..case.rules.len()).map(|i| { let b = std::slice::from_ref(&blocks[&i]); stats.add("wasm_instructions_read", wasm_count(b)); wasm_coq(&m, b) }).collect()
+        };
         n_const += consts; n_conds += case.rules.len() as u64;
         stats.inc("rule_sets"); stats.add("rules", case.rules.len() as u64); stats.add("constant_conditions", consts);
         stats.inc(&format!("stream_{}", case.stream.name()));
@@ -310,8 +405,8 @@ pub fn run(args: &[String]) -> i32 {
         }
         for f in feat { if !f.is_empty() { stats.inc(&format!("uses_{}", f)); } }
         let nl = |v: &Vec<usize>| coq_list(v, |i| format!("{}%nat", i));
-        let coq = format!("mkCase {} {} {} {} {} {} {} {}", coq_list(&case.data, |b| format!("{}", b)), coq_list(&case.globals, gv_coq),
-            coq_list(&case.rules, rule_coq), nl(&all), nl(&public), nl(&warm_all), nl(&warm_pub), coq_list(&irs, |n| n.to_coq()));
+        let coq = format!("mkCase {} {} {} {} {} {} {} {} {} {}", coq_list(&case.data, |b| format!("{}", b)), coq_list(&case.globals, gv_coq),
+            coq_list(&case.rules, rule_coq), nl(&all), nl(&public), nl(&warm_all), nl(&warm_pub), coq_list(&irs, |n| n.to_coq()), coq_list(&cinfo.pattern_ids, |p| coq_list(p, |i| format!("{}%nat", i))), coq_list(&wasm, |w| w.clone()));
         let replay = format!("{{\"index\":{},\"stream\":{},\"source\":{},\"data_hex\":\"{}\",\"globals\":{},\"compile_globals\":{},\"observed_all\":{:?},\"observed_pub\":{:?},\"observed_with_forced_search\":{:?},\"ir_dump\":{},\"coq\":{}}}",
             shards.total, json_str(case.stream.name()), json_str(&src), hex(&case.data), gv_json(&case.globals), gv_json(&case.compile_globals), all, public, warm_all, json_str(&ir_text), json_str(&coq));
         if samples.len() < 3 && case.rules.len() >= 2 && case.stream == Stream::Main { samples.push(format!("{{\"source\":{},\"data_hex\":\"{}\",\"matching\":{:?}}}", json_str(&src), hex(&case.data), all)); }
